@@ -1,6 +1,7 @@
 package main
 
 import (
+	"go/parser"
 	"fmt"
 	"go/ast"
 	"go/types"
@@ -415,9 +416,21 @@ func (f *frame) frameObligations(ct *Contract, entry *State) {
 					tf := m[:i]
 					d := strings.Index(tf, ".")
 					if obj := ct.Pkg.Scope().Lookup(tf[:d]); obj != nil && "H_"+e.structKey(obj.Type())+"_"+tf[d+1:] == n {
+						isParam := false
 						for _, p := range f.fn.Params {
 							if p.Name() == m[i+1:] {
 								excl += " (not (= fr " + f.vals[p].S + "))"
+								isParam = true
+							}
+						}
+						if !isParam {
+							// T.f@expr: an object named by an expression over the parameters, evaluated at entry
+							if ex, err := parser.ParseExpr(m[i+1:]); err == nil {
+								env := f.specEnv(entry)
+								env.old = entry
+								if t, err := env.eval(ex); err == nil && t.Sort == "Int" {
+									excl += " (not (= fr " + t.S + "))"
+								}
 							}
 						}
 					}
